@@ -141,7 +141,14 @@ func c07Context(name string, self int32, sh *c07Shared, kinds [2]int, amounts [2
 func c07Run(T int) {
 	x0, y0 := verifNondetInt32("x0"), verifNondetInt32("y0")
 	verifAssume(x0 >= -1000 && x0 <= 1000 && y0 >= -1000 && y0 <= 1000)
-	sh := &c07Shared{xm: NewLocalSharedManager(tla.MakeNumber(x0)), ym: NewLocalSharedManager(tla.MakeNumber(y0)), sum: x0 + y0}
+	// lock time-out settings: the default and zero (what a configuration that omits the setting yields); in the
+	// engine's model of time the length of a positive time-out makes no difference (a time-out fires only when nothing
+	// else can run)
+	var opts []LocalSharedManagerOption
+	if verifChoose("timeout", 2) == 1 {
+		opts = append(opts, WithLocalSharedResourceTimeout(0))
+	}
+	sh := &c07Shared{xm: NewLocalSharedManager(tla.MakeNumber(x0), opts...), ym: NewLocalSharedManager(tla.MakeNumber(y0), opts...), sum: x0 + y0}
 	var netX int32
 	names := []string{"A", "B", "C"}
 	done := make(chan error, 3)
